@@ -202,28 +202,24 @@ Proof.
 Qed.
 
 Lemma g_fold_spec xs : forall (a : bool * greedy ind),
-  let r := fold_left (fun (a : bool * greedy ind) x => if fst a then a else g_add cmp (snd a) x) xs a in
-  g_mono (snd a) (snd r) /\ (forall b, g_best (snd r) = Some b -> g_best (snd a) = Some b \/ In b xs).
+  let r := fold_left (fun (a : bool * greedy ind) x => let r := g_add cmp (snd a) x in (fst r || fst a, snd r)) xs a in
+  g_mono (snd a) (snd r) /\ (forall b, g_best (snd r) = Some b -> g_best (snd a) = Some b \/ In b xs) /\
+  (forall x, In x xs -> exists b', g_best (snd r) = Some b' /\ le b' x).
 Proof.
   induction xs as [|x xs IH]; intros a; cbn [fold_left].
-  - split; [apply g_mono_refl|auto].
-  - destruct (fst a) eqn:A.
-    + destruct (IH a) as [M I]. split; [exact M|]. intros b Hb. destruct (I b Hb); cbn; auto.
-    + destruct (IH (g_add cmp (snd a) x)) as [M I]. destruct (g_add_spec (snd a) x) as (M0 & _ & I0).
-      split; [eapply g_mono_trans; eauto|]. intros b Hb. destruct (I b Hb) as [H|H]; [|cbn; auto].
-      destruct (I0 b H) as [H'|H']; cbn; auto.
+  - split; [apply g_mono_refl|]. split; [auto|intros x []].
+  - destruct (IH (fst (g_add cmp (snd a) x) || fst a, snd (g_add cmp (snd a) x))) as (M & I & F). cbn [snd] in *.
+    destruct (g_add_spec (snd a) x) as (M0 & B0 & I0).
+    split; [eapply g_mono_trans; eauto|]. split.
+    + intros b Hb. destruct (I b Hb) as [H|H]; [|cbn; auto]. destruct (I0 b H) as [H'|H']; cbn; auto.
+    + intros y [<-|Hy]; [apply M; exact B0|apply F; exact Hy].
 Qed.
 
 Lemma g_add_all_spec (g : greedy ind) xs :
   let g' := snd (g_add_all cmp g xs) in
   g_mono g g' /\ (forall b, g_best g' = Some b -> g_best g = Some b \/ In b xs) /\
-  (forall x, hd_error xs = Some x -> exists b', g_best g' = Some b' /\ le b' x).
-Proof.
-  unfold g_add_all. destruct (g_fold_spec xs (false, g)) as [M I]. cbn [snd] in *. repeat split; auto; try apply M.
-  intros x Hx. destruct xs as [|x0 xs]; cbn in Hx; [discriminate|]. injection Hx as ->.
-  cbn [fold_left fst snd]. destruct (g_fold_spec xs (g_add cmp g x)) as [M' _].
-  destruct (g_add_spec g x) as (_ & B & _). apply M'. exact B.
-Qed.
+  (forall x, In x xs -> exists b', g_best g' = Some b' /\ le b' x).
+Proof. unfold g_add_all. apply (g_fold_spec xs (false, g)). Qed.
 
 (* ================= Rosomaxa ================= *)
 Definition r_inv (r : rosomaxa ind) (off : list ind) : Prop :=
@@ -302,26 +298,23 @@ Definition inv (p : pop ind) (off seen : list ind) : Prop :=
 
 Lemma offered_cons (o : op ind) ops : offered (o :: ops) = offered [o] ++ offered ops.
 Proof. destruct o; cbn; rewrite ?app_nil_r, <- ?app_assoc; reflexivity. Qed.
-Lemma offered_first_cons (o : op ind) ops : offered_first (o :: ops) = offered_first [o] ++ offered_first ops.
-Proof. destruct o as [x|[|x xs]| | |]; cbn; reflexivity. Qed.
 
 Lemma step_inv p off seen o p' :
-  inv p off seen -> step cmp dedup p o = Some p' -> inv p' (off ++ offered [o]) (seen ++ offered_first [o]).
+  inv p off seen -> step cmp dedup p o = Some p' -> inv p' (off ++ offered [o]) (seen ++ offered [o]).
 Proof.
   intros I H. destruct p as [g|e|r]; cbn [inv] in *.
   - (* greedy *)
     destruct I as [I1 I2].
-    destruct o as [x|xs|sp t|d h n|]; cbn [step] in H; injection H as <-; cbn [offered offered_first inv];
+    destruct o as [x|xs|sp t|d h n|]; cbn [step] in H; injection H as <-; cbn [offered inv];
       rewrite ?app_nil_r; try (split; assumption).
     + destruct (g_add_spec g x) as ((_ & M) & B & I0). split.
       * intros b Hb. apply in_or_app. destruct (I0 b Hb) as [Hg| ->]; [left; auto|right; cbn; auto].
       * intros y Hy. apply in_app_or in Hy. destruct Hy as [Hy|[<-|[]]]; [apply M, I2, Hy|exact B].
     + destruct (g_add_all_spec g xs) as ((_ & M) & I0 & F). split.
       * intros b Hb. apply in_or_app. destruct (I0 b Hb) as [Hg|Hg]; [left; auto|right; auto].
-      * intros y Hy. apply in_app_or in Hy. destruct Hy as [Hy|Hy]; [apply M, I2, Hy|].
-        destruct xs as [|x xs]; cbn in Hy; [tauto|]. destruct Hy as [<-|[]]. apply F. reflexivity.
+      * intros y Hy. apply in_app_or in Hy. destruct Hy as [Hy|Hy]; [apply M, I2, Hy|apply F, Hy].
   - (* elitism *)
-    destruct o as [x|xs|sp t|d h n|]; cbn [step] in H; injection H as <-; cbn [offered offered_first inv];
+    destruct o as [x|xs|sp t|d h n|]; cbn [step] in H; injection H as <-; cbn [offered inv];
       rewrite ?app_nil_r; try assumption.
     + apply (e_add_inv e off [x] (off ++ [x]) I).
       * intros z Hz. apply in_or_app; auto.
@@ -334,7 +327,7 @@ Proof.
       * intros z Hz. apply in_app_or in Hz. destruct Hz as [Hz|Hz]; [right|left; auto].
         destruct I as (_ & _ & _ & _ & Hh). auto.
   - (* rosomaxa *)
-    destruct o as [x|xs|sp t|d h n|]; cbn [step] in H; cbn [offered offered_first inv];
+    destruct o as [x|xs|sp t|d h n|]; cbn [step] in H; cbn [offered inv];
       rewrite ?app_nil_r; try (injection H as <-; assumption).
     + injection H as <-. apply r_add_all_inv, I.
     + injection H as <-. apply r_add_all_inv, I.
@@ -343,12 +336,12 @@ Proof.
 Qed.
 
 Lemma run_inv ops : forall p off seen p',
-  inv p off seen -> run cmp dedup ops p = Some p' -> inv p' (off ++ offered ops) (seen ++ offered_first ops).
+  inv p off seen -> run cmp dedup ops p = Some p' -> inv p' (off ++ offered ops) (seen ++ offered ops).
 Proof.
   induction ops as [|o ops IH]; intros p off seen p' I H; cbn [run] in H.
   - injection H as <-. cbn. rewrite !app_nil_r. exact I.
   - destruct (step cmp dedup p o) as [p1|] eqn:S; [|discriminate].
-    rewrite offered_cons, offered_first_cons, !app_assoc. eapply IH; [|exact H]. eapply step_inv; eauto.
+    rewrite offered_cons, !app_assoc. eapply IH; [|exact H]. eapply step_inv; eauto.
 Qed.
 
 Lemma start_inv p0 : start_state p0 -> inv p0 (ranked p0) (ranked p0).
@@ -401,57 +394,19 @@ Variable p0 : pop ind.
 Hypothesis START : start_state p0.
 
 Lemma reach_inv ops p : run cmp dedup ops p0 = Some p ->
-  inv cmp p (ranked p0 ++ offered ops) (ranked p0 ++ offered_first ops).
+  inv cmp p (ranked p0 ++ offered ops) (ranked p0 ++ offered ops).
 Proof. intros H. eapply run_inv; eauto. apply start_inv; auto. Qed.
 
-Lemma ranked_nil_not_greedy : is_greedy p0 = false -> ranked p0 = [].
+(* all three populations: no worse than what the population was created with and everything offered since *)
+Lemma best_never_lost ops p : run cmp dedup ops p0 = Some p ->
+  forall x, In x (ranked p0 ++ offered ops) -> exists b, hd_error (ranked p) = Some b /\ cmp b x <> Gt.
 Proof.
-  destruct START as [(sel & best & ->)|[(max & sel & H)|(c & H)]]; [discriminate| |]; intros _.
-  - unfold elitism_new in H. destruct (max <? 1)%nat; [discriminate|]. injection H as <-. reflexivity.
-  - unfold rosomaxa_new, r_new in H. destruct (_ || _); cbn in H; [discriminate|]. injection H as <-. reflexivity.
-Qed.
-
-Lemma best_never_lost ops p : is_greedy p0 = false -> run cmp dedup ops p0 = Some p ->
-  forall x, In x (offered ops) -> exists b, hd_error (ranked p) = Some b /\ cmp b x <> Gt.
-Proof.
-  intros G H x Hx. pose proof (reach_inv _ _ H) as I. rewrite (ranked_nil_not_greedy G) in I. cbn [app] in I.
-  destruct (run_cfg cmp dedup TP ops _ _ H) as (K & _).
+  intros H x Hx. pose proof (reach_inv _ _ H) as I.
   destruct p as [g|e|r]; cbn [inv ranked] in *.
-  - destruct p0; cbn in *; try discriminate.
+  - destruct I as [_ I2]. destruct (I2 x Hx) as (b & Hb & Hle). exists b. unfold g_ranked. rewrite Hb. auto.
   - destruct I as (_ & _ & _ & _ & Hh). apply Hh, Hx.
   - destruct I as ((_ & _ & _ & _ & Hh) & _). apply Hh, Hx.
 Qed.
-
-Lemma offered_first_incl (ops : list (op ind)) : incl (offered_first ops) (offered ops).
-Proof.
-  induction ops as [|o ops IH]; [intros z []|]. intros z Hz. rewrite offered_first_cons in Hz. rewrite offered_cons.
-  apply in_app_or in Hz. apply in_or_app. destruct Hz as [Hz|Hz]; [left|right; auto].
-  destruct o as [x|[|x xs]| | |]; cbn in *; tauto.
-Qed.
-
-(* every population, Greedy included: no worse than what it held initially, every individual offered singly and
-   the first individual of every batch *)
-Lemma best_never_lost_first ops p : run cmp dedup ops p0 = Some p ->
-  forall x, In x (ranked p0 ++ offered_first ops) -> exists b, hd_error (ranked p) = Some b /\ cmp b x <> Gt.
-Proof.
-  intros H x Hx. pose proof (reach_inv _ _ H) as I.
-  assert (Hx' : In x (ranked p0 ++ offered ops)).
-  { apply in_app_or in Hx. apply in_or_app. destruct Hx; [auto|right; apply offered_first_incl; auto]. }
-  destruct p as [g|e|r]; cbn [inv ranked] in *.
-  - destruct I as [_ I2]. destruct (I2 x Hx) as (b & Hb & Hle). exists b. unfold g_ranked. rewrite Hb. auto.
-  - destruct I as (_ & _ & _ & _ & Hh). apply Hh, Hx'.
-  - destruct I as ((_ & _ & _ & _ & Hh) & _). apply Hh, Hx'.
-Qed.
-
-Lemma offered_first_all (ops : list (op ind)) : batches_at_most_one ops -> offered_first ops = offered ops.
-Proof.
-  induction 1 as [|o ops Ho _ IH]; [reflexivity|]. rewrite offered_first_cons, offered_cons, IH. f_equal.
-  destruct o as [x|[|x [|y xs]]| | |]; cbn in *; try reflexivity. lia.
-Qed.
-
-Lemma best_never_lost_small_batches ops p : batches_at_most_one ops -> run cmp dedup ops p0 = Some p ->
-  forall x, In x (ranked p0 ++ offered ops) -> exists b, hd_error (ranked p) = Some b /\ cmp b x <> Gt.
-Proof. intros B H x Hx. rewrite <- (offered_first_all _ B) in Hx. eapply best_never_lost_first; eauto. Qed.
 
 Lemma ranked_sorted ops p : run cmp dedup ops p0 = Some p ->
   StronglySorted (fun a b => cmp a b <> Gt) (ranked p).
@@ -529,16 +484,16 @@ Proof.
       try discriminate; injection G as <-; cbn; lia.
 Qed.
 
-Lemma offered_first_adds (inits : list ind) rest :
-  offered_first (map OAdd inits ++ rest) = inits ++ offered_first rest.
+Lemma offered_adds (inits : list ind) (rest : list (op ind)) :
+  offered (map OAdd inits ++ rest) = inits ++ offered rest.
 Proof. induction inits as [|x l IH]; cbn; [reflexivity|]. rewrite IH. reflexivity. Qed.
 
 Lemma seeded_never_worse inits gens r : solve cmp dedup p0 inits gens = Some r ->
   forall x, In x inits -> exists b, r = Some b /\ cmp b x <> Gt.
 Proof.
   unfold solve. destruct (run cmp dedup (solve_ops inits gens) p0) as [p|] eqn:H; cbn; [|discriminate].
-  intros [= <-] x Hx. eapply best_never_lost_first; eauto.
-  apply in_or_app; right. unfold solve_ops. rewrite offered_first_adds. apply in_or_app; auto.
+  intros [= <-] x Hx. eapply best_never_lost; eauto.
+  apply in_or_app; right. unfold solve_ops. rewrite offered_adds. apply in_or_app; auto.
 Qed.
 
 End Thms.
@@ -575,14 +530,11 @@ Proof.
   - rewrite Z.compare_gt_iff in *. lia.
 Qed.
 
-Lemma greedy_add_all_refuted :
-  exists ops p,
-    run zcmp (zdedup 0 false) ops (greedy_new 1 None) = Some p /\
-    exists x b, In x (offered ops) /\ hd_error (ranked p) = Some b /\ zcmp b x = Gt.
-Proof.
-  exists [OAddAll [ZI 1 5 0 1; ZI 2 3 0 1]]. eexists. split; [vm_compute; reflexivity|].
-  exists (ZI 2 3 0 1), (ZI 1 5 0 1). vm_compute. intuition.
-Qed.
+(* the batch that exposed the short-circuit defect (fixed in 646d0ea): now the better second individual wins *)
+Lemma greedy_add_all_batch_witness :
+  exists p, run zcmp (zdedup 0 false) [OAddAll [ZI 1 5 0 1; ZI 2 3 0 1]] (greedy_new 1 None) = Some p /\
+    map zid (ranked p) = [2].
+Proof. eexists. split; vm_compute; reflexivity. Qed.
 
 Lemma select_empty_with_zero_selection_size :
   exists p0 ops p, elitism_new 2 0 = Some p0 /\ run zcmp (zdedup 0 false) ops p0 = Some p /\
